@@ -1157,7 +1157,12 @@ def _direct(r, sp, cn, a, y, want, tol):
             if cn["y0_sp"] is not None:
                 out = out + cn["y0_sp"]
         elif t == "LInfProj":
-            out = th.linf_proj(cn["eps"], y1) if cn["b_sp"] is None else th.linf_proj(cn["eps"], y1, bias=cn["b_sp"])
+            if cn["b_sp"] is None:
+                out = th.linf_proj(cn["eps"], y1)
+            elif (y1.size + int(round(float(a) * 8))) % 2:
+                out = th.linf_proj(cn["eps"], y1, cn["b_sp"])      # documented positional order (eps, input, bias)
+            else:
+                out = th.linf_proj(cn["eps"], y1, bias=cn["b_sp"])
         elif t == "PsdProj":
             out = th.psd_proj(y1)
         else:
